@@ -794,6 +794,8 @@ class Engine:
         return self._expr_outcomes(self.eval(s.value, st), lambda s2, v: [Outcome("normal", s2)])
 
     def _yield(self, y, st):
+        if "_yield" in st.vars and "yield" not in st.ghost:
+            return self._yield_symbolic(y, st)
         if "yield" not in st.ghost:
             raise Unsupported("yield outside generator contract")
         if isinstance(y, ast.Yield):
@@ -803,6 +805,33 @@ class Engine:
         def g(s2, v):
             return [Outcome("normal", self.bm.ghost_yield_from(self, s2, v))]
         return self._expr_outcomes(self.eval(y.value, st), g)
+
+    def _yield_symbolic(self, y, st):
+        """Generator under contract with a List[T] result: `_yield` accumulates the yielded values."""
+        from .dom_model import SegGenV
+
+        def add(s2, v):
+            acc = s2.vars["_yield"]
+            outs = []
+            if isinstance(y, ast.Yield):
+                for s3, v1 in self.split(s2, v):
+                    if not fits(v1, acc.elem):
+                        raise Unsupported(f"yield of {v1.kind!r} into generator of {acc.elem!r}")
+                    outs.append(Outcome("normal", s3.bind("_yield", ListV(acc.elem, z3.Concat(acc.t, z3.Unit(box(v1, acc.elem)))))))
+                return outs
+            for s3, v1 in self.split(s2, v):
+                if isinstance(v1, (ListV, TupleV, SegGenV)) :
+                    seq = box(v1, KList(acc.elem))
+                    outs.append(Outcome("normal", s3.bind("_yield", ListV(acc.elem, z3.Concat(acc.t, seq)))))
+                elif isinstance(v1, NoneV):
+                    outs.append(Outcome("raise", s3, RaiseV("TypeError", None, f"yield from None L{y.lineno}")))
+                else:
+                    raise Unsupported(f"yield from {type(v1).__name__}")
+            return outs
+
+        if y.value is None:
+            raise Unsupported("bare yield")
+        return self._expr_outcomes(self.eval(y.value, st), add)
 
     def _mutating_call(self, call: ast.Call, st: State):
         """x.append(v) etc. where x is a Name (or self.attr): rebind the receiver."""
